@@ -174,6 +174,7 @@ fn probe(tcp: &str, n: u64) -> Result<(), String> {
 fn execute(prog: Program) -> Outcome {
     let mut out = Outcome { setup_ok: false, violations: vec![], probes: 0 };
     let w = World::new(1);
+    maybe_segment(3, false);
     w.boot(0, "");
     if !w.wait_primary(0, 5_000) || !w.wait_listening(0, 1_000) {
         return out;
